@@ -122,6 +122,40 @@ Section Sane.
     exists s'. cbn in HQ. auto.
   Qed.
 
+  (** At a crash point (the process dies before its [n]-th call): the invariant
+      of the monitor state reached so far holds of the filesystem left behind. *)
+  Theorem sane_crash {A} (p : prog A) (Q : A -> S -> Prop) s (I : S -> fs -> Prop) :
+    wpv p Q s ->
+    (forall s ev s' f f', m s ev = Some s' -> step1 f ev f' -> names_plain f -> I s f -> I s' f') ->
+    forall w o n, names_plain (w_fs w) -> I s (w_fs w) ->
+    let '(w', _, _, _) := run_crash p w o n in exists s', I s' (w_fs w') /\ names_plain (w_fs w').
+  Proof.
+    intros Hwp Hstep w o n Hpl HI.
+    pose proof (wp_run_crash lift p _ (Some s) w o n Hwp) as Hr. pose proof (run_crash_steps p w o n) as Hs.
+    destruct (run_crash p w o n) as [[[w' o'] tr] b]. destruct Hr as (s1 & Hm).
+    destruct (sane_trace step1 (fun _ _ _ H => H) I Hstep tr _ _ s s1 Hs Hm Hpl HI) as (s' & -> & H1 & H2).
+    exists s'. auto.
+  Qed.
+
+  (** The same, also exposing the monitor's run over the trace (to relate the
+      final states of two monitors on one run). *)
+  Theorem sane_run_nf_tr {A} (p : prog A) (Q : A -> S -> Prop) s (I : S -> fs -> Prop) :
+    wpv p Q s ->
+    (forall s ev s' f f', m s ev = Some s' -> astep f ev f' -> names_plain f -> I s f -> I s' f') ->
+    forall w o, o_fault o = None -> names_plain (w_fs w) -> I s (w_fs w) ->
+    let '(a, w', _, tr) := run p w o in
+    exists s', mon_run lift (Some s) tr = Some (Some s') /\ Q a s' /\ I s' (w_fs w') /\ names_plain (w_fs w').
+  Proof.
+    intros Hwp Hstep w o Hnf Hpl HI.
+    pose proof (wp_run lift p _ (Some s) w o Hwp) as Hr. pose proof (run_asteps p w o Hnf) as Hs.
+    destruct (run p w o) as [[[a w'] o'] tr]. destruct Hr as (s1 & Hm & HQ).
+    destruct (sane_trace astep astep_step1 I Hstep tr _ _ s s1 Hs Hm Hpl HI) as (s' & -> & H1 & H2).
+    exists s'. cbn in HQ. auto.
+  Qed.
+
+  Lemma mon_run_void tr : mon_run lift None tr = Some None.
+  Proof. induction tr as [|ev tr IH]; cbn; auto. Qed.
+
   (** The same without a fault oracle: every answer is the kernel model's. *)
   Theorem sane_run_nf {A} (p : prog A) (Q : A -> S -> Prop) s (I : S -> fs -> Prop) :
     wpv p Q s ->
